@@ -233,7 +233,7 @@ impl M2Model {
         let original_submeshes_size = (n_sub as usize) * original_submesh_size_per_entry;
         let buffer_submeshes_size = original_submeshes_size; // Keep original size in buffer
 
-        let batches_size = (n_batches as usize) * 96; // 96 bytes each
+        let batches_size = (n_batches as usize) * 24; // SkinBatch records are 24 bytes (as read by SkinBatch::parse and written by M2Model::write)
 
         // Verify offsets are within bounds
         if ofs_tris as usize + indices_size > original_m2_data.len() {
